@@ -4,6 +4,7 @@
   faults and the stale-reader schedule) is in the second half of this file.
 -/
 import InvProxy.Model.Seeker
+import InvProxy.Gen.Skels
 import InvProxy.Proofs.Seeker
 namespace InvProxy.C06
 open InvProxy InvProxy.Seeker InvProxy.Gen
@@ -51,6 +52,44 @@ theorem retry_only_if_replayable (cap : Nat) (ops : List Op) (s' : St)
 
 /-- the replay limit in the code is the documented 4 KiB, and at most 1 + 2 attempts are made -/
 theorem replay_constants : utils_readResponseBufSize = 4096 ∧ utils_maxWriteResponseRetryCount = 2 := by decide
+
+/-- The known defect (D5): when the previous attempt's reader is still alive during the
+    retry, it steals source bytes from the new attempt — the acknowledged upload has a gap.
+    Here: attempt 1 read `[1,2]` and failed early; after the seek the new attempt replays
+    `[1,2]`, the stale reader takes `[3,4]`, the new attempt continues with `[5,6]`. -/
+theorem stale_reader_counterexample :
+    let s := (seek0 (run (init 8) [.read 2 [1, 2]])).getD (init 8)
+    newAttemptReceives s [(true, 2, []), (false, 2, [3, 4]), (true, 2, [5, 6])] = [1, 2, 5, 6] ∧
+    (run s [.read 2 [], .read 2 [3, 4], .read 2 [5, 6]]).hist = [1, 2, 3, 4, 5, 6] := by decide
+
+/-- T3: the retry loop makes one `client.Do` per iteration with at most 1 + 2 iterations, seeks
+    back before every retry, and does NOT wait for the previous attempt's body reader (there
+    is no synchronisation between `client.Do` returning and `Seek`): this is the variant
+    under which `stale_reader_counterexample` applies. -/
+theorem retry_loop_shape :
+    utils_maxWriteResponseRetryCount = 2 ∧
+    Skel.count (.call "client.Do") skel_utils_postResponseWithRetries = 1 ∧
+    Skel.count (.call "proxyReadSeeker.Seek") skel_utils_postResponseWithRetries = 2 ∧
+    Skel.precedes (.call "client.Do") (.call "proxyReadSeeker.Seek") skel_utils_postResponseWithRetries = true ∧
+    Skel.count (.call "newBufferedReadSeeker") skel_utils_postResponseWithRetries = 1 := by decide
+
+/-- T3: when the upload goroutine ends (all attempts failed, or success) it closes its end of
+    the pipe, the serialiser propagates the resulting write error to the handler
+    (`CloseWithError`), both goroutines always close their error channels (capacity 1, at
+    most one send each), and `Close` drains both: no handler `Write` or `Close` can block
+    forever on a dead upload. -/
+theorem handler_unblocked_shape :
+    Skel.calls "proxyReader.Close" skel_utils_NewResponseForwarder = true ∧
+    Skel.calls "rw.CloseWithError" skel_utils_NewResponseForwarder = true ∧
+    Skel.calls "proxyWriter.Close" skel_utils_NewResponseForwarder = true ∧
+    Skel.chanCap "postErrChan" skel_utils_NewResponseForwarder = some 1 ∧
+    Skel.chanCap "writeErrChan" skel_utils_NewResponseForwarder = some 1 ∧
+    Skel.count (.send "postErrChan") skel_utils_NewResponseForwarder = 1 ∧
+    Skel.count (.send "writeErrChan") skel_utils_NewResponseForwarder = 1 ∧
+    Skel.closes "postErrChan" skel_utils_NewResponseForwarder = true ∧
+    Skel.closes "writeErrChan" skel_utils_NewResponseForwarder = true ∧
+    Skel.recvs "r.postErrChan" skel_utils_responseForwarder_Close = true ∧
+    Skel.recvs "r.writeErrChan" skel_utils_responseForwarder_Close = true := by decide
 
 -- non-vacuity: a replay across the buffer boundary
 example : (run (init 4) [.read 3 [1,2,3], .seek, .read 2 [], .read 5 [4,5,6]]).sent = [1,2,3,4,5,6] := by decide
